@@ -95,11 +95,17 @@ def resolve_fault(f, ref):
             name = funcs[min(len(funcs) - 1, int(f.get('frac', 0.0) * len(funcs)))]
             k = 1 + int(f.get('frac2', 0.0) * counts[name])
             rel, qual = name.split(':', 1)
-            return {'kind': 'F5', 'mode': 'func', 'func': [rel, qual], 'k': min(k, counts[name])}
+            out = {'kind': 'F5', 'mode': 'func', 'func': [rel, qual], 'k': min(k, counts[name])}
+            if f.get('exc'):
+                out['exc'] = f['exc']
+            return out
         n = ref.get('entries') or 0
         if n <= 0:
             return None
-        return {'kind': 'F5', 'mode': 'nth', 'n': min(n, 1 + int(f.get('frac', 0.0) * n))}
+        out = {'kind': 'F5', 'mode': 'nth', 'n': min(n, 1 + int(f.get('frac', 0.0) * n))}
+        if f.get('exc'):
+            out['exc'] = f['exc']
+        return out
     raise ValueError('unknown fault kind %r' % kind)
 
 
